@@ -84,7 +84,7 @@ def run_case(case, rec, ssj=None):
             # the SAME DataFrame object is both tables; the two filter attributes differ
             R = L
             C = gen.random_candset(rng, L, L, 'lid', 'lid')
-            C['cols'] = ['_id', 'l_lid', 'r_rid'] + C['cols'][3:]
+            C['cols'] = ['r_rid' if c == 'r_lid' else c for c in C['cols']]
             C['data']['r_rid'] = C['data'].pop('r_lid')
             if 'r_lid' in C.get('dtypes', {}):
                 C['dtypes']['r_rid'] = C['dtypes'].pop('r_lid')
